@@ -25,8 +25,8 @@ def count_C07 : Nat := 19
 def digest_C08 : Nat := 0x8db6edf0ebbe0f6163c8900d817ea9b7
 def count_C08 : Nat := 20
 
-def digest_C09 : Nat := 0xe047d84d5813a0ce9a58ce3d0bff9055
-def count_C09 : Nat := 57
+def digest_C09 : Nat := 0xb920cdb5516d2795480ee9206fde84f4
+def count_C09 : Nat := 91
 
 def digest_C10 : Nat := 0xbf14b7b09f06f69f576dac05f3124804
 def count_C10 : Nat := 74
